@@ -692,12 +692,26 @@ def irCfg (c : Sexp) : Ir.Cfg :=
       | .list [.atom "b", _, _, .list pr, _, _] => pr.filterMap Sexp.nat?
       | _ => [])
     let g : Graph.Graph := { n := bs.length, pred := fun i => preds.getD i [] }
-    let domsOf : Nat → List Nat := match Dominators.computeDominators g with
+    let domsD := Dominators.computeDominators g
+    let domsOf : Nat → List Nat := match domsD with
       | some D => fun i => (List.range bs.length).filter (fun j => D i j)
       | none => fun _ => []
+    -- the conditions between the immediate dominator of a block and the block (`get_join_conditions`), from the dumped edges
+    let idomOf : Nat → Option Nat := match domsD with
+      | some D => fun i => (match Dominators.idoms g D i with | .some j => some j | _ => none)
+      | none => fun _ => none
+    let edges : List (Nat × Nat) := (List.range bs.length).flatMap (fun i => (preds.getD i []).map (fun q => (q, i)))
+    let stmtsOf : Nat → List Ir.Stmt := fun i => match bs.getD i (.atom "") with
+      | .list [.atom "b", _, _, _, _, .list sts] => sts.map irStmt
+      | _ => []
+    let isBranch : Nat → Bool := fun i => match (stmtsOf i).getLast? with | some (.ite _) => true | _ => false
+    let hasPhi : Nat → Bool := fun i => (stmtsOf i).any (fun st => match st with | .sub _ _ _ _ (.phi _ _) => true | _ => false)
+    let sortN (l : List Nat) : List Nat := (List.range bs.length).filter (fun i => l.contains i)
     { isFunction := kind == "fn", params := ps.map vnameOf,
       blocks := bs.zipIdx.map (fun bi => match bi.1 with
-        | .list [.atom "b", _, _, .list pr, _, .list sts] => { stmts := sts.map irStmt, npreds := pr.length, doms := domsOf bi.2 }
+        | .list [.atom "b", _, _, .list pr, _, .list sts] =>
+          { stmts := sts.map irStmt, npreds := pr.length, doms := domsOf bi.2,
+            conds := sortN (CfgReach.joinConds edges isBranch hasPhi (idomOf bi.2) bi.2) }
         | _ => { stmts := [] }) }
   | _ => { isFunction := false, params := [], blocks := [] }
 
